@@ -6,8 +6,8 @@
    error 0 = nil; [to_option] maps both classes of panic to None, the models' "the call panics".
    Pointwise equalities for ALL inputs. *)
 From Coq Require Import String.
-From Comdex Require Import Lib.Base Lib.DecArith Lib.GoSem Model.Rates Gen.PureFuns
-  Proofs.PureFunsLemmas.
+From Comdex Require Import Lib.Base Lib.DecArith Lib.GoSem Model.Rates Model.AccrualSites Gen.PureFuns
+  Proofs.PureFunsLemmas Proofs.PureFunsLemmas2 Proofs.PureFunsC18.
 
 (* GetUtilisationRatioByPoolIDAndAssetID: asset statistics present.  The model takes the sum
    TotalBorrowed + TotalStableBorrowed; the code's Int.Add overflow check is subsumed by Int64(). *)
@@ -66,6 +66,123 @@ Proof.
   unfold_gosem; unfold dmul_c, dsub_c; cbv [obind obindr to_option option_map]; tie_auto.
 Qed.
 Print Assumptions tie_lend_GetLendAPR.
+
+(* ---------------- UpdateAPR, GetAverageBorrowRate, GetSavingRate, GetReserveRate ----------------
+   The chain IterateBorrow uses (Model/AccrualSites.v borrow_rates).  UpdateAPR returns a struct: the
+   regenerated definition returns its scalar fields in declaration order (PoolID, AssetID, LendIds,
+   BorrowIds, TotalBorrowed, TotalStableBorrowed, TotalLend, TotalInterestAccumulated, LendApr,
+   BorrowApr, StableBorrowApr, UtilisationRatio) and then found.  GetSavingRate / GetReserveRate
+   return the nil value sdk.Dec{} beside an error: their value component is an option Z ([res_opt]).
+   In GetReserveRate the test  averageBorrowRate != sdk.ZeroDec()  compares the *big.Int POINTERS
+   of two Dec structs, one of them freshly allocated: it is always true (the translator emits
+   [if true]); the model subtracts unconditionally - the same.
+   All theorems: asset statistics and rate parameters present, ALL values. *)
+Theorem tie_lend_UpdateAPR : forall poolID assetID pid aid lids bids tb tsb tl tia la ba sa ur mb p,
+  to_option (gen_lend_UpdateAPR poolID assetID true pid aid lids bids tb tsb tl tia la ba sa ur true mb
+               (rp_uopt p) (rp_s1 p) (rp_base p) (rp_s2 p) (rp_ss1 p) (rp_sbase p) (rp_ss2 p) (rp_rf p))
+  = obindr (utilisation mb (tb + tsb)) (fun u =>
+    obindr (lend_apr_p p u) (fun l =>
+    obindr (borrow_apr p false u) (fun b =>
+    obindr (borrow_apr p true u) (fun sb =>
+      Some (pid, aid, lids, bids, tb, tsb, tl, tia, l, b, sb, u, true))))).
+Proof.
+  intros. unfold gen_lend_UpdateAPR. cbn [negb].
+  rewrite to_option_obind, tie_lend_GetLendAPR. unfold lend_apr_p, borrow_apr.
+  destruct (utilisation mb (tb + tsb)) as [u|] eqn:Eu; [|reflexivity]. cbn [obindr].
+  destruct (kink_apr u (rp_uopt p) (rp_base p) (rp_s1 p) (rp_s2 p)) as [b|] eqn:Eb; [|reflexivity]. cbn [obindr].
+  destruct (lend_apr b u (rp_rf p)) as [l|]; [|reflexivity]. cbn [pair0 option_map obindr].
+  rewrite to_option_obind, tie_lend_GetBorrowAPR, Eu. cbn [obindr]. rewrite Eb. cbn [pair0 option_map].
+  rewrite to_option_obind, tie_lend_GetBorrowAPR, Eu. cbn [obindr].
+  destruct (kink_apr u (rp_uopt p) (rp_sbase p) (rp_ss1 p) (rp_ss2 p)) as [sb|]; [|reflexivity]. cbn [pair0 option_map].
+  rewrite to_option_obind, tie_lend_GetUtilisationRatio, Eu. reflexivity.
+Qed.
+Print Assumptions tie_lend_UpdateAPR.
+
+Theorem tie_lend_GetAverageBorrowRate : forall poolID assetID pid aid lids bids tb tsb tl tia la ba sa ur mb p,
+  res_of (gen_lend_GetAverageBorrowRate poolID assetID true pid aid lids bids tb tsb tl tia la ba sa ur true mb
+               (rp_uopt p) (rp_s1 p) (rp_base p) (rp_s2 p) (rp_ss1 p) (rp_sbase p) (rp_ss2 p) (rp_rf p))
+  = match aprs p mb tb tsb with
+    | Some (b, sb, _) => average_borrow_rate b sb tb tsb
+    | None => Panic
+    end.
+Proof.
+  intros. unfold gen_lend_GetAverageBorrowRate, aprs.
+  rewrite res_of_obind, tie_lend_UpdateAPR.
+  destruct (utilisation mb (tb + tsb)) as [u|]; [|reflexivity]. cbn [obindr].
+  destruct (lend_apr_p p u) as [l|]; [|reflexivity]. cbn [obindr].
+  destruct (borrow_apr p false u) as [b|]; [|reflexivity]. cbn [obindr].
+  destruct (borrow_apr p true u) as [sb|]; [|reflexivity]. cbn [obindr].
+  unfold average_borrow_rate, obindo. unfold_gosem. unfold iadd_c, chk_int, dmul_c, dadd_c, dquo_c. cbv [obind].
+  destruct (int64_c tb) as [x|] eqn:E1; [apply int64_c_some in E1; destruct E1 as [-> _]|reflexivity].
+  destruct (chk_dec (dmul b (dec_of_int tb))) as [f1|]; [|destruct (int64_c tsb); reflexivity].
+  destruct (int64_c tsb) as [y|] eqn:E2; [apply int64_c_some in E2; destruct E2 as [-> _]|reflexivity].
+  destruct (chk_dec (dmul sb (dec_of_int tsb))) as [f2|]; [|reflexivity].
+  destruct (chk_dec (f1 + f2)) as [num|]; [|reflexivity].
+  destruct (fits_int (tsb + tb)) eqn:Ef; [|rewrite (not_fits_int_int64 _ Ef); reflexivity].
+  destruct (int64_c (tsb + tb)) as [tot|] eqn:E3; [apply int64_c_some in E3; destruct E3 as [-> _]|reflexivity].
+  cbv zeta. destruct (dec_of_int (tsb + tb) <=? 0); [reflexivity|].
+  cbn [res_of]. destruct (dec_of_int (tsb + tb) =? 0); [reflexivity|].
+  destruct (chk_dec _); reflexivity.
+Qed.
+Print Assumptions tie_lend_GetAverageBorrowRate.
+
+Theorem tie_lend_GetSavingRate : forall poolID assetID pid aid lids bids tb tsb tl tia la ba sa ur mb p,
+  res_opt (gen_lend_GetSavingRate poolID assetID true true pid aid lids bids tb tsb tl tia la ba sa ur mb
+               (rp_uopt p) (rp_s1 p) (rp_base p) (rp_s2 p) (rp_ss1 p) (rp_sbase p) (rp_ss2 p) (rp_rf p))
+  = match aprs p mb tb tsb with
+    | Some (b, sb, u) => obind (average_borrow_rate b sb tb tsb) (fun avg => pan_of (saving_rate avg u (rp_rf p)))
+    | None => Panic
+    end.
+Proof.
+  intros. unfold gen_lend_GetSavingRate. cbn [negb].
+  rewrite res_opt_obind_err, tie_lend_GetAverageBorrowRate. unfold aprs.
+  destruct (utilisation mb (tb + tsb)) as [u|] eqn:Eu; [|reflexivity]. cbn [obindr].
+  destruct (lend_apr_p p u) as [l|]; [|reflexivity]. cbn [obindr].
+  destruct (borrow_apr p false u) as [b|]; [|reflexivity]. cbn [obindr].
+  destruct (borrow_apr p true u) as [sb|]; [|reflexivity]. cbn [obindr].
+  destruct (average_borrow_rate b sb tb tsb) as [avg| |]; [|reflexivity|reflexivity]. cbn [obind].
+  rewrite res_opt_obind_err.
+  rewrite (res_of_pair0 _ _ (tie_lend_GetUtilisationRatio poolID assetID mb tb tsb)), Eu. cbn [pan_of obind].
+  unfold saving_rate, lend_apr. unfold_gosem. unfold dsub_c, dmul_c. cbv [obind obindr].
+  destruct (chk_dec (P18 - rp_rf p)); [|reflexivity].
+  destruct (chk_dec (dmul avg u)); [|reflexivity].
+  destruct (chk_dec _); reflexivity.
+Qed.
+Print Assumptions tie_lend_GetSavingRate.
+
+Theorem tie_lend_GetReserveRate : forall poolID assetID pid aid lids bids tb tsb tl tia la ba sa ur mb p,
+  res_opt (gen_lend_GetReserveRate poolID assetID true pid aid lids bids tb tsb tl tia la ba sa ur true mb
+               (rp_uopt p) (rp_s1 p) (rp_base p) (rp_s2 p) (rp_ss1 p) (rp_sbase p) (rp_ss2 p) (rp_rf p))
+  = obind (borrow_rates p mb tb tsb false) (fun '(_, rr, _, _) => Ok rr).
+Proof.
+  intros. unfold gen_lend_GetReserveRate.
+  rewrite res_opt_obind_err, tie_lend_GetAverageBorrowRate.
+  unfold borrow_rates, obindo.
+  pose proof (tie_lend_GetSavingRate poolID assetID pid aid lids bids tb tsb tl tia la ba sa ur mb p) as HS.
+  unfold aprs in *.
+  destruct (utilisation mb (tb + tsb)) as [u|] eqn:Eu; [|reflexivity]. cbn [obindr] in *.
+  destruct (lend_apr_p p u) as [l|]; [|reflexivity]. cbn [obindr] in *.
+  destruct (borrow_apr p false u) as [b|] eqn:Eb; [|reflexivity]. cbn [obindr] in *.
+  destruct (borrow_apr p true u) as [sb|]; [|reflexivity]. cbn [obindr] in *.
+  destruct (average_borrow_rate b sb tb tsb) as [avg| |]; [|reflexivity|reflexivity]. cbn [obind] in *.
+  rewrite res_opt_obind_err_opt, HS. unfold reserve_rate.
+  destruct (saving_rate avg u (rp_rf p)) as [s|]; [|reflexivity]. cbn [pan_of obind obindr].
+  unfold_gosem. unfold dsub_c. destruct (chk_dec (avg - s)); reflexivity.
+Qed.
+Print Assumptions tie_lend_GetReserveRate.
+
+(* rate parameters absent: GetSavingRate returns (0, ErrorAssetRatesParamsNotFound) before any arithmetic *)
+Theorem tie_lend_GetSavingRate_notfound : forall poolID assetID (f1 : bool) pid aid lids bids tb tsb tl tia la ba sa ur mb uopt s1 base s2 ss1 sbase ss2 rf,
+  gen_lend_GetSavingRate poolID assetID false f1 pid aid lids bids tb tsb tl tia la ba sa ur mb uopt s1 base s2 ss1 sbase ss2 rf
+  = Ok (Some 0, 1).
+Proof. reflexivity. Qed.
+Print Assumptions tie_lend_GetSavingRate_notfound.
+
+Theorem tie_lend_rates_recognised :
+  gen_lend_UpdateAPR_unrecognised = [] /\ gen_lend_GetAverageBorrowRate_unrecognised = [] /\
+  gen_lend_GetSavingRate_unrecognised = [] /\ gen_lend_GetReserveRate_unrecognised = [].
+Proof. repeat split; reflexivity. Qed.
+Print Assumptions tie_lend_rates_recognised.
 
 Theorem tie_lend_recognised :
   gen_lend_GetUtilisationRatio_unrecognised = [] /\ gen_lend_GetBorrowAPR_unrecognised = [] /\
